@@ -233,7 +233,8 @@ class Json(Harness):
             exp = [x for x in inp['L'][c] if not (isinstance(x, str) and x == '')]
             conds.append(OL.s_list_eq(obs['names'][c], exp))
         yield 'names-per-category', s_and(*conds)
-        yield 'compression-as-sent', OL.s_list_eq(obs['comp'], list(inp['comp']) or [''])
+        # as for the algorithm categories: the non-empty names as sent (an empty name-list is no entry at all)
+        yield 'compression-as-sent', OL.s_list_eq(obs['comp'], [x for x in inp['comp'] if not (isinstance(x, str) and x == '')])
         yield 'banner-as-sent', obs['raw'] == 'SSH-2.0-' + inp['sw']
         yield 'role-key', (obs['client_ip'] == '1.2.3.4' and obs['target'] is None) if self.client else (obs['target'] == 'host:22' and obs['client_ip'] is None)
         yield 'single-json-line', obs['nlines'] == 1
